@@ -517,6 +517,9 @@ def run_property(prop, tier, obligations, meta, partial=False):
     cap = os.environ.get('LSV_TIMEOUT_CAP')      # smoke runs of a tier: every obligation's solver budget is capped (timeouts are then reported as undecided)
     if cap:
         for ob in obligations: ob.timeout = min(ob.timeout, int(cap))
+    samp = os.environ.get('LSV_SAMPLE')      # smoke runs: every N-th obligation only (the run is then partial: evidence goes to evidence/partial)
+    if samp:
+        obligations = obligations[::int(samp)]; partial = True
     results = []
     try:
         # goto objects of the real TUs are built once in the parent; obligations then run in forked worker processes
